@@ -57,6 +57,18 @@ def install(it):
             el.attrs.append((pstr(deref_all(kv[0])), escape(it_, deref_all(kv[1]).chars)))
         return e
     m(r"quick_xml::events::BytesStart::<'_>::extend_attributes::<.*>", extend)
+    def push_pair(it_, e, kv):
+        deref_all(e).attrs.append((pstr(deref_all(kv[0])), escape(it_, deref_all(kv[1]).chars))); return []
+    m(r"quick_xml::events::BytesStart::<'_>::push_attribute::<(?:'_, )?\(&str, &str\)>", push_pair)
+    def push_raw(it_, e, a):
+        # an Attribute { key: QName(bytes), value: Cow<[u8]> } is taken over as it stands (no escaping)
+        a = deref_all(a); key, val = deref_all(a.fields[0]), deref_all(a.fields[1])
+        while isinstance(key, Adt): key = deref_all(key.fields[0])
+        while isinstance(val, Adt): val = deref_all(val.fields[0])
+        chars = val.chars if isinstance(val, SStr) else getattr(val, 'chars', None)
+        if chars is None: raise Unsupported('raw attribute value that is not the bytes of a str')
+        deref_all(e).attrs.append((pstr(SStr(key.chars if hasattr(key, 'chars') else list(key))), list(chars))); return []
+    m(r"quick_xml::events::BytesStart::<'_>::push_attribute::<(?:'_, )?quick_xml::events::attributes::Attribute<'_>>", push_raw)
     m(r'quick_xml::Writer::<.*>::write_event::<.*>', lambda it_, w, ev: (deref_all(w).events.append(ev), OK([]))[1])
     m(r"quick_xml::events::BytesStart::<'_>::attributes", lambda it_, e: PyIter([OK(AttrObj([ord(x) for x in k], list(v))) for k, v in deref_all(e).attrs]))
     m(r"quick_xml::events::attributes::Attributes::<'_>::with_checks", lambda it_, a, flag: a)
